@@ -3171,8 +3171,14 @@ class UTPM(Ring, RawAlgorithmsMixIn):
 
         """
 
-        in_X = numpy.array(in_X)
-        Rb,Cb = numpy.shape(in_X)
+        # numpy.array(in_X) would try to unpack the UTPM entries themselves
+        # (they are indexable), so the container of blocks is built explicitly
+        Rb = len(in_X); Cb = len(in_X[0])
+        blocks = numpy.empty((Rb,Cb), dtype=object)
+        for r in range(Rb):
+            for c in range(Cb):
+                blocks[r,c] = in_X[r][c]
+        in_X = blocks
 
         # find the degree D and number of directions P
         D = 0; 	P = 0;
